@@ -74,6 +74,7 @@ class Model(object):
     def expect(self, call):
         """(verdict, reason) for call = ('add', bib) | ('bar', Decimal) | (trial, bib)."""
         op, arg = call
+        op = op.split(':')[0]          # 'add:<keywords variant>' is the same call as 'add'
         st = self.stage
         if op == 'add':
             if st != 'scheduled':
@@ -114,6 +115,7 @@ class Model(object):
     # ---- transition ------------------------------------------------------------------------
     def apply(self, call):
         op, arg = call
+        op = op.split(':')[0]
         if op == 'add':
             self.ath[arg] = A(arg)
             self.order.append(arg)
